@@ -158,6 +158,7 @@ def streams(seed, tier):
         # long vectors of general floats: the left-to-right f32 sum is not what a re-associated (chunked, pairwise, SIMD) sum gives
         fvs = fvs + [[fbits(1e8)] + [fbits(1.0)] * 15 + [fbits(-1e8)] + [fbits(1.0)] * 15, [fbits(0.1 * i) for i in range(40)],
                      [fbits(1e-3 * (i * i % 17) + 1e4 * (i % 3)) for i in range(33)], [fbits(16777216.0)] + [fbits(1.0)] * 17]
+        fvs = fvs + [[fbits(x)] * n_ for x in (0.1, 0.3, 1e-3, 3.3333333, 1e20) for n_ in (3, 6, 7, 10, 13, 50)]
         fvs = fvs + [[rand_f32(rng) for _ in range(n_)] for n_ in (16, 17, 18, 31, 32, 33, 64, 100) for _ in range(2)]
         fvs = fvs + [[fbits(rng.uniform(-1000, 1000)) for _ in range(n_)] for n_ in (16, 17, 18, 32, 33, 100, 257) for _ in range(2)]
         for v in fvs:
@@ -232,6 +233,24 @@ def streams(seed, tier):
                     st[k] = st[k][:1]
             st["exec"] = [I(nm)]
             cases.append(case_run((mask + len(nm)) % 2, state(**st), 0, 1))
+    # sequences of 3..6 instructions of one vector family with literals in between, executed step by step (what one instruction leaves
+    # behind - also inside the vector value - is what the next one sees)
+    progs = []
+    lit = {"BOOLVECTOR": lambda: BV([rng.random() < 0.5 for _ in range(rng.randrange(0, 5))]), "INTVECTOR": lambda: IV([rng.randrange(-3, 12) for _ in range(rng.randrange(0, 5))]),
+           "FLOATVECTOR": lambda: FV([fbits(rng.choice([0.0, 0.5, 1.0, 2.5, -1.0, 10.0])) for _ in range(rng.randrange(0, 5))])}
+    for _ in range({"quick": 1500, "thorough": 15000, "search": 5000}[tier]):
+        fam = rng.choice(list(lit))
+        own = [x for x in vec if x.startswith(fam + ".") and x not in stepgen.ALLOCATING]
+        prog = [lit[fam](), lit[fam]()]
+        for _ in range(rng.randrange(3, 7)):
+            prog.append(I(rng.choice(own)))
+            r = rng.random()
+            if r < 0.35: prog.append(Z(rng.randrange(-2, 11)))
+            elif r < 0.5: prog.append(lit[fam]())
+            elif r < 0.6: prog.append(rng.choice([B(True), F(fbits(2.0))]))
+        progs.append(case_run(rng.randrange(2), state(exec=prog, int=[0, 1], bool=[True], float=[fbits(1.0)]), 0, len(prog)))
+    out.append(Stream("family-programs", "run", "run.check", progs,
+                      "random sequences of 3..6 instructions of ONE vector family (sort, then element-wise arithmetic, then a search, ...) with literals in between, executed step by step"))
     # the same call twice with one instruction set: what the dispatch closure of an instruction may remember must not matter
     twice = []
     nong = [x for x in allnames if x not in stepgen.UNSAFE and x not in stepgen.RANDOM and not x.startswith("GRAPH.")]
